@@ -132,6 +132,29 @@ class PlainScale:
         return x * jnp.asarray(self.w) + self.shift
 
 
+@onnx_function
+class InnerFlags(nnx.Module):
+    """Takes two runtime flags that callers do not forward explicitly."""
+
+    def __init__(self, seed: int):
+        self.lin = nnx.Linear(4, 4, rngs=nnx.Rngs(0))
+        self.lin.kernel.value = jnp.asarray(W((4, 4), seed))
+
+    def __call__(self, x, deterministic: bool = True, frozen: bool = True):
+        y = self.lin(x)
+        y = jnp.where(deterministic, y, y * 0.5)
+        return jnp.where(frozen, y, y + 1.0)
+
+
+@onnx_function
+class OuterFlags(nnx.Module):
+    def __init__(self, seed: int):
+        self.inner = InnerFlags(seed)
+
+    def __call__(self, x, deterministic: bool = True, frozen: bool = True):
+        return self.inner(x) * 2.0
+
+
 class LateBlock(nnx.Module):
     """Decorated late (by a plan operation), never at import."""
 
@@ -355,6 +378,7 @@ BUILDERS: dict[str, Callable[[], Program]] = {
     "kwblock": lambda: _p("kwblock", (lambda m: (lambda x: m(x, scale=2.0) + m(x, scale=3.0)))(_single("kwb", lambda: KwBlock(4, 4))), [(2, 4)]),
     "late": lambda: _p("late", (lambda m: (lambda x: m(x) + 1.0))(_single("late", lambda: LateBlock(4, 9))), [(2, 4)]),
     "cf_fn_in_scan": lambda: _p("cf_fn_in_scan", cf_fn_in_scan, [(4, 3)]),
+    "autoflags": lambda: _p("autoflags", (lambda m: (lambda x, **kw: m(x) + 1.0))(_single("outerflags", lambda: OuterFlags(3))), [(2, 4)], input_params={"deterministic": True, "frozen": True}),
     "jit_cold": lambda: _p("jit_cold", lambda x: jit_helper_cold(x) + 1.0, [(3, 4)]),
     "jit_cold2": lambda: _p("jit_cold2", lambda x: jit_helper_cold2(x) * 3.0, [(5,)]),
     "resconv_nchw": lambda: _p("resconv_nchw", _single("resconv", lambda: ResConv(3, 1)), [(1, 6, 6, 3)], inputs_as_nchw=[0], outputs_as_nchw=[0]),
@@ -387,6 +411,16 @@ def _big(name: str) -> Program:
     _, n_s, k_s, variant, seed_s = name.split("-")
     n, k, seed = int(n_s), int(k_s), int(seed_s)
     ws = [W((n,), seed + 11 * i) for i in range(k)]
+    if variant == "tied":
+        side = max(2, int(round(n ** 0.5)))
+        w_sq = (W((side, side), seed) * (1.0 / side)).astype(np.float32)
+        w_t = w_sq.T  # same buffer, different strides (tied weights)
+
+        def fn_tied(x):
+            h = jnp.tanh(x @ w_sq)
+            return jnp.sum(h @ w_t), (h @ w_t)[:16]
+
+        return _p(name, fn_tied, [(side,)])
     if variant == "fn":
         blk = BigConstBlock(n, seed)
 
